@@ -243,6 +243,7 @@ def run_harnesses(names, tier='quick', jobs=None):
             if js is None or 'verification_results' not in js:
                 tail = '\n'.join(l for l in out.split('\n') if not l.startswith('warning') and l.strip())[-3000:]
                 kind = 'COMPILE-ERROR' if COMPILE_ERR_RE.search(out) else 'NO-RESULT'
+                sys.stderr.write('kani produced no result file; output tail:\n' + tail[-1500:] + '\n')
                 for h in hs:
                     res.append({'name': h, 'status': kind, 'time_s': wall, 'mode': table[h].get('mode'), 'bound': table[h].get('bound'),
                                 'cmd': ' '.join(cmd), 'file': table[h]['file'], 'log_tail': tail})
@@ -294,7 +295,7 @@ def run_harnesses(names, tier='quick', jobs=None):
     return res
 
 
-def witness(harness, crate, timeout=900):
+def witness(harness, crate, timeout=420):
     """re-run one failed harness with concrete playback; returns {'test': text, 'values': [...]}"""
     cmd = ['cargo', 'kani', '-p', crate, '-Z', 'function-contracts', '-Z', 'stubbing', '-Z', 'concrete-playback', '--concrete-playback=print',
            '--output-format', 'terse', '--harness', harness, '--target-dir', TARGET]
